@@ -67,7 +67,7 @@ class C05(Check):
     assumptions = ["Calibrator, checkpointing, samplers: real code on a real scratch folder; crash = the live object and every reference are "
                    "dropped, ambient RNG state perturbed, only the folder survives; a sample of restores in a truly fresh interpreter is "
                    "not taken (in-process restore only)", "RL line-ups take part with a greedy (eps = 0) agent only: with eps > 0 every cut makes the agent draw one more random number for the action it had pending, so equality across cuts is not defined"]
-    quick = {"runs": 40, "wall": 150, "item_timeout": 600}
+    quick = {"runs": 40, "wall": 420, "item_timeout": 900}
     thorough = {"runs": 3000, "wall": 900, "item_timeout": 1200}
 
     def gen(self, rng, tier, i):
